@@ -10,7 +10,7 @@
 From Coq Require Import List Bool NArith PeanoNat.
 Import ListNotations.
 Require Import PV.Binder.Kind PV.Gen.Kinds PV.Binder.Sig PV.Binder.Bind PV.Binder.PyBind.
-Require Import PV.Proofs.BinderConcrete PV.Proofs.BinderValid PV.Proofs.BinderStar PV.Proofs.BinderMain PV.Proofs.BinderDef PV.Proofs.BinderGen PV.Proofs.BinderPositions PV.Proofs.BinderRaw PV.Proofs.BinderOnce.
+Require Import PV.Proofs.BinderConcrete PV.Proofs.BinderValid PV.Proofs.BinderStar PV.Proofs.BinderMain PV.Proofs.BinderDef PV.Proofs.BinderGen PV.Proofs.BinderPositions PV.Proofs.BinderRaw PV.Proofs.BinderOnce PV.Proofs.BinderUnion.
 Require Import PV.Binder.BindCore PV.Gen.BinderShape.
 Open Scope N_scope.
 
@@ -211,3 +211,25 @@ Theorem C05_bind_binds_once : forall s a b,
   /\ Permutation.Permutation (kw_used b) (map fst (keywords a)).
 Proof. exact bind_binds_once. Qed.
 Print Assumptions C05_bind_binds_once.
+
+(* 11. Possibly-provided keywords (definitely_provided = False: a key that some member of a
+       union of closed mappings passed as **x lacks; `preprocess_u` models the key-by-key
+       merge of preprocess_args).  If the binder accepts a call without star-arguments,
+       CPython binds it for EVERY set of keywords between the definitely provided ones and
+       all of them — in particular for every member of the union. *)
+Theorem C05_possible_keywords_sound : forall s a K,
+  valid_sig s = true -> flagged a -> names_nodup K = true ->
+  (forall k, kw_lookup k (keywords a) = Some true -> memN k K = true) ->
+  (forall k, memN k K = true -> kw_lookup k (keywords a) <> None) ->
+  accepts s a = true ->
+  py_bind s (length (positionals a)) K = true.
+Proof. exact possible_keywords_sound. Qed.
+Print Assumptions C05_possible_keywords_sound.
+
+Example C05_union_example :
+  let s := [mkParam 1 POK false; mkParam 2 POK true; mkParam 9 VK false] in
+  call_ok_u s [UKwUnion [[1]; [1; 2; 7]]] = true
+  /\ py_bind s 0 [1] = true /\ py_bind s 0 [1; 2; 7] = true
+  /\ call_ok_u [mkParam 1 POK false; mkParam 2 POK false] [UKwUnion [[1]; [1; 2]]] = false.
+Proof. exact union_example. Qed.
+Print Assumptions C05_union_example.
